@@ -7,9 +7,12 @@ From stdpp Require Import base option list numbers fin_maps nmap.
 From Verif.Base Require Import Bytes.
 From Verif.Topics Require Import Predefined.
 From Verif.Codec Require Import Packets Decode Encode RefParse.
-From Verif.Checkers Require Import ChkCodec ChkGw ChkGw2.
+From Verif.Checkers Require Import ChkCodec ChkGw ChkGw2 ChkCl.
 From Verif.Gateway Require Import GwTypes GwStep.
 From Verif.Match Require Import Match.
+From Verif.Util Require Import IdSeq.
+From Verif.Txn Require Import Txn.
+From Verif.Cli Require Import Options.
 From Verif.Client Require Import ClTypes ClStep.
 
 Definition nmap_empty : topic_map := ∅.
@@ -23,4 +26,7 @@ Extraction "model.ml"
   encode_short decode_short is_short_topic
   init_state gw_step gw_run chk_C14 chk_C01 chk_C23 chk_C24 obs_of_outs mqtt_valid
   chk_C03 chk_C04 chk_C07 chk_C08 chk_C09 chk_C11
-  cl_init cl_step cl_run handle_set match_route split join.
+  cl_init cl_step cl_run handle_set match_route split join valid_filter
+  q_new q_step q_run st_new st_step st_run txn_new txn_step txn_run
+  parse_options tool_cfg gateway_starts client_tool_starts parse_line
+  chk_C23c chk_C27 chk_C17 chk_C31c.
